@@ -2,6 +2,7 @@ package checks
 
 import (
 	"encoding/json"
+	"path/filepath"
 	"sort"
 )
 
@@ -11,3 +12,5 @@ func jsonUnmarshal(b []byte, v interface{}) error { return json.Unmarshal(b, v) 
 
 // racePass is replaced when the free-running race-detector pass is wired in.
 var racePass = func(r *Run, prop string) {}
+
+func filepathGlob(p string) ([]string, error) { return filepath.Glob(p) }
